@@ -1,10 +1,15 @@
 """Table of checks: property -> units (test binaries / fuzz targets) and budgets."""
 
 
-def rapid(pkg, test, q, t, tshards=12, **kw):
+# budget multipliers (cases are cheap: 0.1-0.5 ms each); thorough runs 16 processes per unit
+QUICK_X = 2
+THOROUGH_X = 4
+
+
+def rapid(pkg, test, q, t, tshards=16, **kw):
     u = {"kind": "rapid", "pkg": pkg, "test": test,
-         "quick": {"checks": q, "shards": 1},
-         "thorough": {"checks": t, "shards": tshards}}
+         "quick": {"checks": q * QUICK_X, "shards": 1},
+         "thorough": {"checks": t * THOROUGH_X, "shards": max(tshards, 16)}}
     u.update(kw)
     return u
 
@@ -19,14 +24,14 @@ CHECKS = {
     "C03": {"units": [rapid("bcastx", "TestC03", 10000, 100000)]},
     "C04": {"units": [rapid("routinex", "TestC04", 10000, 60000)]},
     "C05": {"units": [rapid("routinex", "TestC05", 8000, 60000)]},
-    "C12": {"units": [rapid("lifox", "TestC12Controlled", 6000, 25000), rapid("lifox", "TestC12Free", 2000, 5000, 16)]},
-    "C13": {"units": [rapid("racex", "TestC13", 2500, 6000, 16, race=True, shrinktime="5s")]},
+    "C12": {"units": [rapid("lifox", "TestC12Controlled", 6000, 25000), rapid("lifox", "TestC12Free", 1000, 2000, 16)]},
+    "C13": {"units": [rapid("racex", "TestC13", 2500, 5000, 16, race=True, shrinktime="5s")]},
     "C14": {"units": [rapid("routinex", "TestC14", 10000, 60000)]},
     "C06": {"units": [rapid("keyedx", "TestC06Keyed", 6000, 40000), rapid("keyedx", "TestC06RefCount", 6000, 40000)]},
     "C07": {"units": [rapid("keyedx", "TestC07", 8000, 50000)]},
     "C08": {"units": [rapid("refcountx", "TestC08", 8000, 50000)]},
     "C09": {"units": [rapid("refcountx", "TestC09", 8000, 50000)]},
-    "C10": {"units": [rapid("refcountx", "TestC10", 20000, 60000)]},
+    "C10": {"units": [rapid("refcountx", "TestC10", 12000, 60000)]},
     "C11": {"units": [rapid("freex", "TestC11Free", 1500, 10000, 16), rapid("promisex", "TestC11", 10000, 80000)]},
     "C15": {"units": [rapid("freex", "TestC15Free", 1000, 8000, 16), rapid("ccontx", "TestC15", 10000, 80000)]},
     "C16": {"units": [rapid("freex", "TestC16Free", 1500, 10000, 16), rapid("promisex", "TestC16", 10000, 80000)]},
